@@ -1,15 +1,22 @@
-/* C07: canonical models of the loop-level pixel accessor contracts of contracts/C07_image.h ("havoc the assigns clause, assume the
- * ensures clauses" -- what --replace-call-with-contract does, written out so that symbolic execution does not pay for the
- * write-set bookkeeping of a contract replacement in every loop body).  Every assumption below is literally an ensures clause
- * macro of the contract (WP_EXC, WP_PIX, RP_PIX, RPC_PIX); the requires clauses are asserted.  The groups Image.model.* enforce the
- * contract on each model (model |= contract); contract |= model holds by construction (the model assumes nothing else). */
+/* C07: canonical models of the loop-level contracts of contracts/C07_image.h ("havoc the assigns clause, assume the ensures clauses"
+ * -- what --replace-call-with-contract does, written out so that symbolic execution does not pay for the write-set bookkeeping
+ * of a contract replacement in every loop body: measured 25k -> 6k symex steps and 5x less solver time per blit).
+ *
+ * Pixel accessors: every assumption below is literally an ensures clause macro of the contract (WP_EXC, WP_PIX, RP_PIX); the
+ * requires clauses are asserted.  The groups Image.model.* enforce the contract on each model (model |= contract); contract |=
+ * model holds by construction (the model assumes nothing else).
+ * Outlined arithmetic helpers (-DC07_ARITH_MODEL): the function-point contract of the helper (BLH8 / BLHM / BLHA in the contract
+ * header, proved on the extracted expression text by the groups Image.<fn>.arith[k]) with its definitional hypothesis
+ * "g_bo == specification formula of the tuple" discharged -- that hypothesis is a precondition (DEF_REQ) wherever a loop-level
+ * contract is used, see contracts/C07_image.h. */
 #ifndef C07_PIXEL_MODEL_H
 #define C07_PIXEL_MODEL_H
 #include "contracts/C07_image.h"
 
 uint64_t nondet_C07_u64(void);
-int nondet_C07_int(void);
 uint32_t nondet_C07_u32(void);
+int nondet_C07_int(void);
+ssize_t nondet_C07_ssize(void);
 
 #define MODEL_REQ(self) \
   __CPROVER_assert(verif_exc == 0, "pixel accessor called with an exception in flight"); \
@@ -29,58 +36,6 @@ void Image_read_pixel(const Image* self, ssize_t x, ssize_t y, uint64_t* r, uint
   __CPROVER_assume(self == g_mimg ==> RP_PIX(self, x, y, r, g, b, a, g_mx, g_my, g_mr, g_mg, g_mb, g_ma));
 #ifdef C07_GHOST2
   __CPROVER_assume(self == g_dimg ==> RP_PIX(self, x, y, r, g, b, a, g_ex, g_ey, g_er, g_eg, g_eb, g_ea));
-
-/* ---- custom_blit callbacks: an arbitrary function, sampled at one symbolic argument tuple ---- */
-void verif_cb32(uint32_t* dc, uint32_t sc)
-{
-  uint32_t o = *dc;
-  *dc = nondet_C07_u32();
-  __CPROVER_assume((o == g_cb_d && sc == g_cb_s) ==> *dc == g_cb_out);
-}
-void verif_cb64(uint64_t* dr, uint64_t* dg, uint64_t* db, uint64_t* da, uint64_t sr, uint64_t sg, uint64_t sb, uint64_t sa)
-{
-  uint64_t o_r = *dr, o_g = *dg, o_b = *db, o_a = *da;
-  *dr = nondet_C07_u64(); *dg = nondet_C07_u64(); *db = nondet_C07_u64(); *da = nondet_C07_u64();
-  __CPROVER_assume((o_r == g_ci_dr && o_g == g_ci_dg && o_b == g_ci_db && o_a == g_ci_da && sr == g_ci_sr && sg == g_ci_sg && sb == g_ci_sb && sa == g_ci_sa)
-                   ==> (*dr == g_co_r && *dg == g_co_g && *db == g_co_b && *da == g_co_a));
-}
-
-#ifdef C07_ARITH_MODEL
-/* ---- the outlined dash selector of the axis-aligned lines: an unconstrained value (it only selects a branch); its precondition is asserted ---- */
-ssize_t nondet_C07_ssize(void);
-ssize_t x_h_div1(ssize_t x, ssize_t dash_length)
-{ __CPROVER_assert(dash_length != 0 && COORD_OK(x) && COORD_OK(dash_length), "dash selector: no division by zero / overflow"); return nondet_C07_ssize(); }
-ssize_t x_v_div1(ssize_t y, ssize_t dash_length)
-{ __CPROVER_assert(dash_length != 0 && COORD_OK(y) && COORD_OK(dash_length), "dash selector: no division by zero / overflow"); return nondet_C07_ssize(); }
-/* ---- the outlined blend expressions, canonical model of their function-point contracts (BLH8 / BLHM / BLHA of the contract header;
- *      proved on the extracted expression text by the groups Image.<fn>.arith[k]) ---- */
-#define MBLH8(name, AL, C, D, gc, gd, gbo) uint64_t name(P8) { uint64_t ret = nondet_C07_u64(); \
-  __CPROVER_assume((g_tup_ok && (AL) == g_t_al && (C) == gc && (D) == gd) ==> ret == gbo); return ret; }
-MBLH8(x_fill_bl1, p1, p2, p5, g_t_cr, g_t_dr, g_bo_r)
-MBLH8(x_fill_bl2, p1, p3, p6, g_t_cg, g_t_dg, g_bo_g)
-MBLH8(x_fill_bl3, p1, p4, p7, g_t_cb, g_t_db, g_bo_b)
-MBLH8(x_fill_bl4, p1, p1, p8, g_t_ca, g_t_da, g_bo_a)
-MBLH8(x_blit_bl1, p4, p1, p5, g_t_cr, g_t_dr, g_bo_r)
-MBLH8(x_blit_bl2, p4, p2, p6, g_t_cg, g_t_dg, g_bo_g)
-MBLH8(x_blit_bl3, p4, p3, p7, g_t_cb, g_t_db, g_bo_b)
-MBLH8(x_blit_bl4, p4, p4, p8, g_t_ca, g_t_da, g_bo_a)
-#define MBLHM(name, C, D, gc, gd, gbo) uint64_t name(const Image* self, P8) { uint64_t ret = nondet_C07_u64(); \
-  __CPROVER_assert(self->max_value != 0, "blend helper: max_value != 0"); \
-  __CPROVER_assume((g_tup_ok && p4 == g_t_al && (C) == gc && (D) == gd && self->max_value == g_t_mx) ==> ret == gbo); return ret; }
-MBLHM(x_blend_bl1, p1, p5, g_t_cr, g_t_dr, g_bo_r)
-MBLHM(x_blend_bl2, p2, p6, g_t_cg, g_t_dg, g_bo_g)
-MBLHM(x_blend_bl3, p3, p7, g_t_cb, g_t_db, g_bo_b)
-MBLHM(x_blend_bl4, p4, p8, g_t_ca, g_t_da, g_bo_a)
-uint64_t x_blenda_bl1(const Image* self, uint64_t source_alpha, uint64_t sr, uint64_t sg, uint64_t sb, uint64_t sa)
-{ uint64_t ret = nondet_C07_u64(); __CPROVER_assert(self->max_value != 0, "blend helper: max_value != 0");
-  __CPROVER_assume((g_tup_ok && source_alpha == g_t_e1 && sa == g_t_e2 && self->max_value == g_t_mx) ==> ret == g_bo_e); return ret; }
-#define MBLHA(name, C, D, gc, gd, gbo) uint64_t name(const Image* self, uint64_t source_alpha, uint64_t effective_alpha, P8) { uint64_t ret = nondet_C07_u64(); \
-  __CPROVER_assert(self->max_value != 0, "blend helper: max_value != 0"); \
-  __CPROVER_assume((g_tup_ok && effective_alpha == g_t_al && (C) == gc && (D) == gd && self->max_value == g_t_mx) ==> ret == gbo); return ret; }
-MBLHA(x_blenda_bl2, p1, p5, g_t_cr, g_t_dr, g_bo_r)
-MBLHA(x_blenda_bl3, p2, p6, g_t_cg, g_t_dg, g_bo_g)
-MBLHA(x_blenda_bl4, p3, p7, g_t_cb, g_t_db, g_bo_b)
-#endif
 #endif
 }
 
@@ -97,58 +52,6 @@ void Image_write_pixel(Image* self, ssize_t x, ssize_t y, uint64_t r, uint64_t g
   uint64_t p_r = g_er, p_g = g_eg, p_b = g_eb, p_a = g_ea;
   g_er = nondet_C07_u64(); g_eg = nondet_C07_u64(); g_eb = nondet_C07_u64(); g_ea = nondet_C07_u64();
   __CPROVER_assume(WP_PIX(self, x, y, r, g, b, a, g_ex, g_ey, p_r, p_g, p_b, p_a, g_er, g_eg, g_eb, g_ea));
-
-/* ---- custom_blit callbacks: an arbitrary function, sampled at one symbolic argument tuple ---- */
-void verif_cb32(uint32_t* dc, uint32_t sc)
-{
-  uint32_t o = *dc;
-  *dc = nondet_C07_u32();
-  __CPROVER_assume((o == g_cb_d && sc == g_cb_s) ==> *dc == g_cb_out);
-}
-void verif_cb64(uint64_t* dr, uint64_t* dg, uint64_t* db, uint64_t* da, uint64_t sr, uint64_t sg, uint64_t sb, uint64_t sa)
-{
-  uint64_t o_r = *dr, o_g = *dg, o_b = *db, o_a = *da;
-  *dr = nondet_C07_u64(); *dg = nondet_C07_u64(); *db = nondet_C07_u64(); *da = nondet_C07_u64();
-  __CPROVER_assume((o_r == g_ci_dr && o_g == g_ci_dg && o_b == g_ci_db && o_a == g_ci_da && sr == g_ci_sr && sg == g_ci_sg && sb == g_ci_sb && sa == g_ci_sa)
-                   ==> (*dr == g_co_r && *dg == g_co_g && *db == g_co_b && *da == g_co_a));
-}
-
-#ifdef C07_ARITH_MODEL
-/* ---- the outlined dash selector of the axis-aligned lines: an unconstrained value (it only selects a branch); its precondition is asserted ---- */
-ssize_t nondet_C07_ssize(void);
-ssize_t x_h_div1(ssize_t x, ssize_t dash_length)
-{ __CPROVER_assert(dash_length != 0 && COORD_OK(x) && COORD_OK(dash_length), "dash selector: no division by zero / overflow"); return nondet_C07_ssize(); }
-ssize_t x_v_div1(ssize_t y, ssize_t dash_length)
-{ __CPROVER_assert(dash_length != 0 && COORD_OK(y) && COORD_OK(dash_length), "dash selector: no division by zero / overflow"); return nondet_C07_ssize(); }
-/* ---- the outlined blend expressions, canonical model of their function-point contracts (BLH8 / BLHM / BLHA of the contract header;
- *      proved on the extracted expression text by the groups Image.<fn>.arith[k]) ---- */
-#define MBLH8(name, AL, C, D, gc, gd, gbo) uint64_t name(P8) { uint64_t ret = nondet_C07_u64(); \
-  __CPROVER_assume((g_tup_ok && (AL) == g_t_al && (C) == gc && (D) == gd) ==> ret == gbo); return ret; }
-MBLH8(x_fill_bl1, p1, p2, p5, g_t_cr, g_t_dr, g_bo_r)
-MBLH8(x_fill_bl2, p1, p3, p6, g_t_cg, g_t_dg, g_bo_g)
-MBLH8(x_fill_bl3, p1, p4, p7, g_t_cb, g_t_db, g_bo_b)
-MBLH8(x_fill_bl4, p1, p1, p8, g_t_ca, g_t_da, g_bo_a)
-MBLH8(x_blit_bl1, p4, p1, p5, g_t_cr, g_t_dr, g_bo_r)
-MBLH8(x_blit_bl2, p4, p2, p6, g_t_cg, g_t_dg, g_bo_g)
-MBLH8(x_blit_bl3, p4, p3, p7, g_t_cb, g_t_db, g_bo_b)
-MBLH8(x_blit_bl4, p4, p4, p8, g_t_ca, g_t_da, g_bo_a)
-#define MBLHM(name, C, D, gc, gd, gbo) uint64_t name(const Image* self, P8) { uint64_t ret = nondet_C07_u64(); \
-  __CPROVER_assert(self->max_value != 0, "blend helper: max_value != 0"); \
-  __CPROVER_assume((g_tup_ok && p4 == g_t_al && (C) == gc && (D) == gd && self->max_value == g_t_mx) ==> ret == gbo); return ret; }
-MBLHM(x_blend_bl1, p1, p5, g_t_cr, g_t_dr, g_bo_r)
-MBLHM(x_blend_bl2, p2, p6, g_t_cg, g_t_dg, g_bo_g)
-MBLHM(x_blend_bl3, p3, p7, g_t_cb, g_t_db, g_bo_b)
-MBLHM(x_blend_bl4, p4, p8, g_t_ca, g_t_da, g_bo_a)
-uint64_t x_blenda_bl1(const Image* self, uint64_t source_alpha, uint64_t sr, uint64_t sg, uint64_t sb, uint64_t sa)
-{ uint64_t ret = nondet_C07_u64(); __CPROVER_assert(self->max_value != 0, "blend helper: max_value != 0");
-  __CPROVER_assume((g_tup_ok && source_alpha == g_t_e1 && sa == g_t_e2 && self->max_value == g_t_mx) ==> ret == g_bo_e); return ret; }
-#define MBLHA(name, C, D, gc, gd, gbo) uint64_t name(const Image* self, uint64_t source_alpha, uint64_t effective_alpha, P8) { uint64_t ret = nondet_C07_u64(); \
-  __CPROVER_assert(self->max_value != 0, "blend helper: max_value != 0"); \
-  __CPROVER_assume((g_tup_ok && effective_alpha == g_t_al && (C) == gc && (D) == gd && self->max_value == g_t_mx) ==> ret == gbo); return ret; }
-MBLHA(x_blenda_bl2, p1, p5, g_t_cr, g_t_dr, g_bo_r)
-MBLHA(x_blenda_bl3, p2, p6, g_t_cg, g_t_dg, g_bo_g)
-MBLHA(x_blenda_bl4, p3, p7, g_t_cb, g_t_db, g_bo_b)
-#endif
 #endif
 }
 
@@ -169,13 +72,12 @@ void verif_cb64(uint64_t* dr, uint64_t* dg, uint64_t* db, uint64_t* da, uint64_t
 
 #ifdef C07_ARITH_MODEL
 /* ---- the outlined dash selector of the axis-aligned lines: an unconstrained value (it only selects a branch); its precondition is asserted ---- */
-ssize_t nondet_C07_ssize(void);
 ssize_t x_h_div1(ssize_t x, ssize_t dash_length)
 { __CPROVER_assert(dash_length != 0 && COORD_OK(x) && COORD_OK(dash_length), "dash selector: no division by zero / overflow"); return nondet_C07_ssize(); }
 ssize_t x_v_div1(ssize_t y, ssize_t dash_length)
 { __CPROVER_assert(dash_length != 0 && COORD_OK(y) && COORD_OK(dash_length), "dash selector: no division by zero / overflow"); return nondet_C07_ssize(); }
-/* ---- the outlined blend expressions, canonical model of their function-point contracts (BLH8 / BLHM / BLHA of the contract header;
- *      proved on the extracted expression text by the groups Image.<fn>.arith[k]) ---- */
+
+/* ---- the outlined blend expressions ---- */
 #define MBLH8(name, AL, C, D, gc, gd, gbo) uint64_t name(P8) { uint64_t ret = nondet_C07_u64(); \
   __CPROVER_assume((g_tup_ok && (AL) == g_t_al && (C) == gc && (D) == gd) ==> ret == gbo); return ret; }
 MBLH8(x_fill_bl1, p1, p2, p5, g_t_cr, g_t_dr, g_bo_r)
